@@ -128,5 +128,10 @@ Definition natural_F_ok (kn : list Q) (F : nat -> nat -> Q) : bool :=
   forallb (fun m => forallb (fun k =>
      Qeq_bool (hq kn (m - 1) / 6 * F (m - 1)%nat k + (hq kn (m - 1) + hq kn m) / 3 * F m k + hq kn m / 6 * F (S m) k) (nat_D kn m k))
      (seq 0 size)) (seq 1 (size - 2)).
+Fixpoint qsum (n : nat) (f : nat -> Q) : Q := match n with O => 0 | S n' => qsum n' f + f n' end.
+(* checkable: b.F = d for the cyclic system *)
+Definition cyclic_F_ok (kn : list Q) (F : nat -> nat -> Q) : bool :=
+  let n := (length kn - 1)%nat in
+  forallb (fun m => forallb (fun k => Qeq_bool (qsum n (fun j => cyc_B kn n m j * F j k)) (cyc_D kn n m k)) (seq 0 n)) (seq 0 n).
 Definition strictly_increasing (kn : list Q) : bool :=
   forallb (fun i => Qltb (Kq kn i) (Kq kn (S i))) (seq 0 (length kn - 1)).
